@@ -61,6 +61,9 @@ type replayDoc struct {
 	// multi-route inbound (multi_test.go) and multi-target outbound (multiout_test.go)
 	Multi    *mReplay `json:"multi,omitempty"`
 	MultiOut *oReplay `json:"multi_out,omitempty"`
+
+	// written window bounds (bounds_test.go)
+	Bounds *bReplay `json:"bounds,omitempty"`
 }
 
 const maxListedSteps = 5000
@@ -334,6 +337,13 @@ func runReplay(t *testing.T, r *runner.Run, path string) {
 		}
 		fl, err = runMultiOutReplay(t, d.Part, *d.MultiOut)
 		r.Add("evaluations", int64(len(d.MultiOut.Clocks)))
+	case "bounds":
+		if d.Bounds == nil {
+			r.Infra("replay: no bounds scenario in the artefact")
+			return
+		}
+		fl, err = bRecheck(t, *d.Bounds, doc.Key)
+		r.Add("evaluations", 1)
 	default:
 		r.Infra("replay: part %q has no case replay; run the check", d.Part)
 		return
